@@ -27,7 +27,9 @@ func (m *minimalStore) Open(name string) (hackpadfs.File, error) { return m.inne
 func (m *minimalStore) OpenFile(name string, flag int, perm hackpadfs.FileMode) (hackpadfs.File, error) {
 	return m.inner.OpenFile(name, flag, perm)
 }
-func (m *minimalStore) Mkdir(name string, perm hackpadfs.FileMode) error { return m.inner.Mkdir(name, perm) }
+func (m *minimalStore) Mkdir(name string, perm hackpadfs.FileMode) error {
+	return m.inner.Mkdir(name, perm)
+}
 
 // minimalTarStore additionally has Chmod (required by the tar FS).
 type minimalTarStore struct{ minimalStore }
